@@ -37,6 +37,17 @@ func unpackZip(
 	err error,
 ) {
 	defer RequireErrorHasCategory(&err, rio.ErrorCategory(""))
+	// The hash bucket reports a malformed set of entries (repeated or orphaned paths) by panicking
+	// with ErrInvalidFilesystem, and expects its caller to map that to something meaningful.
+	defer func() {
+		if r := recover(); r != nil {
+			if e, ok := r.(fshash.ErrInvalidFilesystem); ok {
+				err = Errorf(rio.ErrWareCorrupt, "corrupt zip: %s", e)
+				return
+			}
+			panic(r)
+		}
+	}()
 
 	readerAt, closer, err := buffer.SectionReader(ctx, archiveWareID, reader, mon)
 	if err != nil {
@@ -82,6 +93,9 @@ func unpackZip(
 		}
 		if strings.HasPrefix(fmeta.Name.String(), "..") {
 			return api.WareID{}, api.WareID{}, Errorf(rio.ErrWareCorrupt, "corrupt zip: paths that use '../' to leave the base dir are invalid")
+		}
+		if fmeta.Type != fs.Type_Dir && prefilterBucket.HasRecord(fmeta) {
+			return api.WareID{}, api.WareID{}, Errorf(rio.ErrWareCorrupt, "corrupt zip: repeated entry %q", fmeta.Name)
 		}
 
 		// Infer parents, if necessary.  The zip format should not allow implicit dirs, but we allow
@@ -156,8 +170,14 @@ func unpackZip(
 			if err := fsOp.PlaceFile(afs, filteredFmeta, nil, false); err != nil {
 				return api.WareID{}, api.WareID{}, Errorf(rio.ErrInoperablePath, "error while unpacking: %s", err)
 			}
-			prefilterBucket.AddRecord(fmeta, nil)
-			filteredBucket.AddRecord(filteredFmeta, nil)
+			if prefilterBucket.HasRecord(fmeta) {
+				// As for tars: an explicit entry for a dir we already inferred (or saw) updates its record.
+				prefilterBucket.UpdateRecord(fmeta, nil)
+				filteredBucket.UpdateRecord(filteredFmeta, nil)
+			} else {
+				prefilterBucket.AddRecord(fmeta, nil)
+				filteredBucket.AddRecord(filteredFmeta, nil)
+			}
 		default:
 			return api.WareID{}, api.WareID{}, Errorf(rio.ErrPackInvalid, "zip pack does not support files of type %v", fmeta.Type)
 		}
